@@ -104,7 +104,22 @@ class Scen:
         self.stalled = False        # the main request reached its stall point
         self.connector = aiohttp.TCPConnector(limit=case.get("limit", 10), resolver=_Resolver(self), use_dns_cache=True, ttl_dns_cache=300)
         # a small read buffer so that a large partial body pauses reading (phase mid-body-after-pause)
-        self.session = aiohttp.ClientSession(connector=self.connector, cookie_jar=aiohttp.DummyCookieJar(), read_bufsize=1024)
+        skw = {}
+        self.trace_gates = []
+        if case.get("trace_suspend"):
+            # tracing callbacks that really suspend: each is an await point at which the request can be cancelled
+            tc = aiohttp.TraceConfig()
+
+            def mk(name):
+                async def cb(session, ctx, params):
+                    fut = self.loop.create_future()
+                    self.trace_gates.append((name, fut))
+                    await fut
+                return cb
+            for name in ("on_request_start", "on_request_end"):
+                getattr(tc, name).append(mk(name[3:]))
+            skw["trace_configs"] = [tc]
+        self.session = aiohttp.ClientSession(connector=self.connector, cookie_jar=aiohttp.DummyCookieJar(), read_bufsize=1024, **skw)
         self.results = {}
         self.times = {}
         self.tasks = {}
@@ -270,6 +285,9 @@ class Scen:
 
     def menu(self):
         m = []
+        for (name, fut) in self.trace_gates:
+            if not fut.done():
+                m.append((f"trace.{name}", lambda f=fut: f.done() or f.set_result(None)))
         # DNS answers, TCP connects: stalled only for the main request's phase
         for i, (host, fut) in enumerate(self.dns_futs):
             if not fut.done() and not (self.phase == "dns" and not self._main_over() and not self.case.get("no_stall")):
@@ -305,11 +323,20 @@ class Scen:
     def faults(self):
         f = []
         if "cancel" in self.case.get("faults", ()) and not self.tasks["main"].done():
-            f.append(("cancel.main", self.tasks["main"].cancel))
+            f.append(("cancel.main", lambda: (self._note_cancel(), self.tasks["main"].cancel())))
             if not self.started_follow:
                 # the debounce pattern: cancel the old request and issue a new one to the same host in the same loop pass
-                f.append(("cancel.main+follow", lambda: (self.tasks["main"].cancel(), self._follow())))
+                f.append(("cancel.main+follow", lambda: (self._note_cancel(), self.tasks["main"].cancel(), self._follow())))
         return f
+
+    def _note_cancel(self):
+        # was the exchange of /main already complete (whole response delivered) when the caller was cancelled?
+        # then its connection is an ordinary idle keep-alive connection, free to be reused
+        for (ct, st, peer) in self.conns:
+            reqs = http1.read_requests(bytes(peer.buf)).messages
+            for k, m in enumerate(reqs):
+                if m.target == b"/main" and k < peer.answered and self.case.get("no_stall") and not ct.deliverable():
+                    self.main_complete_at_cancel = True
 
     def P(self, sig, msg):
         self.problems.append((f"C18:{sig}", msg + f" | case {self.case['name']}"))
@@ -351,7 +378,7 @@ class Scen:
             # the main request's connection must not be reused: the follow-up / sibling may not travel on it
             for idx, (ct, st, peer) in enumerate(self.conns):
                 paths = [m.target for m in http1.read_requests(bytes(peer.buf)).messages]
-                if b"/main" in paths and self.phase not in ("pool", "dns", "connect"):
+                if b"/main" in paths and self.phase not in ("pool", "dns", "connect") and not getattr(self, "main_complete_at_cancel", False):
                     later = paths[paths.index(b"/main") + 1:]
                     if later:
                         self.P("connection-reused-after-timeout", f"connection {idx} carried {later} after the failed /main")
@@ -412,6 +439,10 @@ def cases(quick):
         for first in (False, True):
             out.append({"name": f"dns-share/{kind}={T:g}/{'sib' if first else 'main'}-owns-lookup", "phase": "before-status", "timeout": (kind, T),
                         "sibling": True, "sib_first": first, "faults": ["cancel"], "no_stall": True})
+    # tracing callbacks that suspend: cancellation while the request sits in one of them
+    for phase in ("before-status", "mid-length-body", "before-body"):
+        out.append({"name": f"{phase}/total=7.5/traced", "phase": phase, "timeout": ("total", 7.5), "sibling": False, "faults": ["cancel"], "trace_suspend": True})
+    out.append({"name": "healthy/traced", "phase": "before-status", "timeout": ("total", 3.0), "sibling": True, "faults": ["cancel"], "no_stall": True, "trace_suspend": True})
     # the peer is prompt, the application is slow: the total timeout still bounds the exchange, whatever read API is used
     for how in ("read3", "readline", "readchunk", "readuntil"):
         out.append({"name": f"slow-consumer/{how}/total=3", "phase": "before-status", "timeout": ("total", 3.0), "sibling": False, "faults": [], "no_stall": True,
